@@ -3,7 +3,10 @@
 // FunctionFormatter / FunctionHandler with scripted deterministic behaviours, SeqNumberAttr /
 // DuplicateFilter / LevelFilter (thin logging subclasses that call the real virtual), a recording
 // Sink, null entries through append(initializer_list), one QSharedPointer inserted at several
-// places), processes the message sequence and prints what every leaf's function saw/returned.
+// places), processes the message sequence - interleaved with structural edits of any pipeline of the
+// tree through append / operator<< / the fluent calls / append(list) / remove / clear / the typed
+// SortedPipeline calls and clear<Class>() - and prints what every leaf's function saw/returned.
+// Attribute values are typed (QString, int, bool, double, QByteArray); deliveries print type + value.
 // Protocol: see ocaml/drv_pipeline.ml (same tokens, same output).
 #ifdef VERIF_HEADER_ONLY
 #include "qtlogger.h"
@@ -11,6 +14,7 @@
 #include "qtlogger/qtlogger.h"
 #endif
 #include <algorithm>
+#include <cmath>
 #include <iostream>
 #include <map>
 #include <sstream>
@@ -34,14 +38,34 @@ static std::string hex(const QString &s)
     for (QChar c : s) { snprintf(b, sizeof b, "%04x", unsigned(c.unicode())); r += b; }
     return r;
 }
+// typed value token: bare hex = QString, i~<int>, b~<0|1>, f~<n> = the double n/2, y~<hex bytes> = QByteArray
+static QVariant tval(const QString &t)
+{
+    if (t.size() >= 2 && t[1] == '~') {
+        const QString r = t.mid(2);
+        switch (t[0].unicode()) {
+        case 'i': return QVariant(r.toInt());
+        case 'b': return QVariant(r == "1");
+        case 'f': return QVariant(r.toInt() / 2.0);
+        case 'y': return QVariant(QByteArray::fromHex(r.toLatin1()));
+        case 's': return QVariant(unhex(r));
+        }
+    }
+    return QVariant(unhex(t));
+}
 static std::string content(const LogMessage &m)
 {
     std::vector<std::string> kv;
     const auto a = m.attributes();
     for (auto it = a.begin(); it != a.end(); ++it) {
         std::string v;
-        if (it.value().userType() == QMetaType::QString) v = "s" + hex(it.value().toString());
-        else if (it.value().userType() == QMetaType::Int) v = "i" + std::to_string(it.value().toInt());
+        const int ut = it.value().userType();
+        if (ut == QMetaType::QString) v = "s" + hex(it.value().toString());
+        else if (ut == QMetaType::Int) v = "i" + std::to_string(it.value().toInt());
+        else if (ut == QMetaType::Bool) v = it.value().toBool() ? "b1" : "b0";
+        else if (ut == QMetaType::Double) { double d2 = it.value().toDouble() * 2; long long n = std::llround(d2);
+            v = (double(n) == d2) ? "f" + std::to_string(n) : std::string("f?"); }
+        else if (ut == QMetaType::QByteArray) v = "y" + it.value().toByteArray().toHex().toStdString();
         else v = "?";
         kv.push_back(hex(it.key()) + "=" + v);
     }
@@ -71,6 +95,168 @@ struct LoggedLevel : LevelFilter {
 
 struct Frame { Pipeline *p; SimplePipeline *sp; bool fluent_child; };
 
+// what a leaf token describes: a scripted function of one of the four std::function kinds, or a ready object
+struct Spec {
+    char kind = 0;   // 'A' attribute function, 'F' filter function, 'M' formatter function, 'G' generic function, 'H' object
+    std::function<QVariantHash(const LogMessage &)> fa;
+    std::function<bool(const LogMessage &)> ff;
+    std::function<QString(const LogMessage &)> fm;
+    std::function<bool(LogMessage &)> fg;
+    HandlerPtr h;
+};
+
+static bool spec_of(const QStringList &p, Spec &s)
+{
+    const QString k = p[0];
+    if (p.size() < 2) return false;
+    const int id = p[1].toInt();
+    if (k == "as" || k == "ac" || k == "am") {
+        s.kind = 'A';
+        if (k == "as") { if (p.size() < 4) return false; QString kk = unhex(p[2]); QVariant v = tval(p[3]);
+            s.fa = [id, kk, v](const LogMessage &) { logx(id, true); return QVariantHash{ { kk, v } }; }; }
+        else if (k == "am") { QVariantHash hsh;   // several pairs; later pairs of the list win
+            for (const QString &kv : p.value(2).split(',', Qt::SkipEmptyParts)) { auto q = kv.split('.'); hsh.insert(unhex(q[0]), tval(q.value(1))); }
+            s.fa = [id, hsh](const LogMessage &) { logx(id, true); return hsh; }; }
+        else { if (p.size() < 3) return false; QString kk = unhex(p[2]);
+            s.fa = [id, kk](const LogMessage &m) { logx(id, true); return QVariantHash{ { kk, m.formattedMessage() } }; }; }
+    } else if (k == "ft" || k == "ff" || k == "fc" || k == "fh" || k == "fy") {
+        s.kind = 'F';
+        if (k == "ft") s.ff = [id](const LogMessage &) { logx(id, true); return true; };
+        else if (k == "ff") s.ff = [id](const LogMessage &) { logx(id, false); return false; };
+        else if (p.size() < 3) return false;
+        else if (k == "fc") { QString t = unhex(p[2]); s.ff = [id, t](const LogMessage &m) { bool r = m.formattedMessage().contains(t); logx(id, r); return r; }; }
+        else if (k == "fh") { QString t = unhex(p[2]); s.ff = [id, t](const LogMessage &m) { bool r = m.hasAttribute(t); logx(id, r); return r; }; }
+        else { int t = p[2].toInt(); s.ff = [id, t](const LogMessage &m) { bool r = int(m.type()) == t; logx(id, r); return r; }; }
+    } else if (k == "mt" || k == "ma" || k == "mn" || k == "me") {
+        s.kind = 'M';
+        if (k == "mt") { if (p.size() < 3) return false; QString tag = unhex(p[2]); s.fm = [id, tag](const LogMessage &m) { logx(id, true); return tag + ":" + m.formattedMessage(); }; }
+        else if (k == "ma") { if (p.size() < 4) return false; QString tag = unhex(p[2]), kk = unhex(p[3]);
+            s.fm = [id, tag, kk](const LogMessage &m) { logx(id, true);
+                QString v = m.hasAttribute(kk) ? (m.attribute(kk).userType() == QMetaType::QString ? m.attribute(kk).toString() : QString("#")) : QString("-");
+                return tag + "[" + v + "]"; }; }
+        else if (k == "mn") s.fm = [id](const LogMessage &) { logx(id, true); return QString(); };
+        else s.fm = [id](const LogMessage &) { logx(id, true); return QString(""); };
+    } else if (k == "p" || k == "gs" || k == "gr" || k == "gf" || k == "gc") {
+        s.kind = 'G';
+        if (k == "p") s.fg = [id](LogMessage &m) { sep(); out << "d" << id << ".p." << content(m); return true; };
+        else if (k == "gs") { if (p.size() < 5) return false; QString kk = unhex(p[2]); QVariant v = tval(p[3]); bool r = p[4] == "1";
+            s.fg = [id, kk, v, r](LogMessage &m) { logx(id, r); m.setAttribute(kk, v); return r; }; }
+        else if (k == "gr") { if (p.size() < 4) return false; QString kk = unhex(p[2]); bool r = p[3] == "1"; s.fg = [id, kk, r](LogMessage &m) { logx(id, r); m.removeAttribute(kk); return r; }; }
+        else if (k == "gf") { if (p.size() < 4) return false; QString tag = unhex(p[2]); bool r = p[3] == "1"; s.fg = [id, tag, r](LogMessage &m) { logx(id, r); m.setFormattedMessage(tag + m.formattedMessage()); return r; }; }
+        else { if (p.size() < 3) return false; bool r = p[2] == "1"; s.fg = [id, r](LogMessage &m) { logx(id, r); m.setFormattedMessage(QString()); return r; }; }
+    } else {
+        s.kind = 'H';
+        if (k == "s") s.h = QSharedPointer<RecSink>::create(id);
+        else if (k == "q" && p.size() >= 3) s.h = QSharedPointer<LoggedSeq>::create(id, unhex(p[2]));
+        else if (k == "d") s.h = QSharedPointer<LoggedDup>::create(id);
+        else if (k == "l" && p.size() >= 3) s.h = QSharedPointer<LoggedLevel>::create(id, QtMsgType(p[2].toInt()));
+        else return false;
+    }
+    return true;
+}
+
+static HandlerPtr object_of(const Spec &s)
+{
+    switch (s.kind) {
+    case 'A': return FunctionAttrHandlerPtr::create(s.fa);
+    case 'F': return FunctionFilterPtr::create(s.ff);
+    case 'M': return FunctionFormatterPtr::create(s.fm);
+    case 'G': return FunctionHandlerPtr::create(s.fg);
+    default: return s.h;
+    }
+}
+
+struct Ctx {
+    std::map<int, HandlerPtr> objects;      // oid -> the one object of that identity
+    std::vector<HandlerPtr> keep;
+    bool bad = false, err = false;
+    std::string why;
+    void fail(const std::string &w) { if (!err) why = w; err = true; }
+};
+
+// Pipeline::append / the fluent call (two thirds of the fresh objects where the pipeline is a SimplePipeline);
+// `shift` = use operator<< instead of append() for the plain insertion
+static void add_leaf(Ctx &c, Pipeline *cur, SimplePipeline *sp, const QStringList &p, bool shift)
+{
+    if (p.size() < 2) { c.bad = true; return; }
+    const int id = p[1].toInt();
+    if (c.objects.count(id)) { if (shift) *cur << c.objects[id]; else cur->append(c.objects[id]); return; }   // the same object at another place
+    Spec s;
+    if (!spec_of(p, s)) { c.bad = true; return; }
+    HandlerPtr h;
+    const bool fluent = sp != nullptr && (id % 3 != 0) && s.kind != 'H';
+    if (fluent) {
+        switch (s.kind) {
+        case 'A': sp->attrHandler(s.fa); break;
+        case 'F': sp->filter(s.ff); break;
+        case 'M': sp->format(s.fm); break;
+        default: sp->handler(s.fg); break;
+        }
+        h = static_cast<const Pipeline *>(cur)->handlers().last();
+    } else {
+        h = object_of(s);
+        if (shift) *cur << h; else cur->append(h);
+    }
+    c.objects[id] = h;
+}
+
+static bool has_null(const Pipeline *p)
+{
+    for (const auto &h : p->handlers()) if (!h) return true;
+    return false;
+}
+
+// one edit token  @<path>@<op>[@<arg>]  applied to the real tree
+static void apply_edit(Ctx &c, SimplePipeline *root, const QString &tok)
+{
+    const QStringList e = tok.split('@');            // "", path, op, [arg]
+    if (e.size() < 3) { c.fail("bad edit"); return; }
+    Pipeline *cur = root;
+    for (const QString &ix : e[1].split('/', Qt::SkipEmptyParts)) {
+        const auto &l = static_cast<const Pipeline *>(cur)->handlers();
+        const int i = ix.toInt();
+        PipelinePtr q = (i >= 0 && i < l.size() && l[i]) ? l[i].dynamicCast<Pipeline>() : PipelinePtr();
+        if (!q) { c.fail("edit path does not address a pipeline"); return; }
+        cur = q.data();
+    }
+    SimplePipeline *sp = dynamic_cast<SimplePipeline *>(cur);
+    SortedPipeline *so = dynamic_cast<SortedPipeline *>(cur);
+    const QString op = e[2], arg = e.value(3);
+    if (op == "n") { cur->append(std::initializer_list<HandlerPtr>{ HandlerPtr() }); return; }
+    if (op == "c") { if (so) so->clear(); else cur->clear(); return; }
+    if (op == "r") { const int id = arg.toInt(); if (c.objects.count(id)) cur->remove(c.objects[id]); return; }
+    if ((op == "k" || op == "t") && !so) { c.fail("typed call on a plain Pipeline"); return; }
+    if ((op == "k" || op == "t") && has_null(cur)) { c.fail("typed call on a list with a null entry (x->type() on a null pointer)"); return; }
+    if (op == "k") {
+        if (arg == "A") so->clearAttrHandlers(); else if (arg == "F") so->clearFilters(); else if (arg == "M") so->clearFormatters();
+        else if (arg == "S") so->clearSinks(); else if (arg == "P") so->clearPipelines(); else c.fail("bad class");
+        return;
+    }
+    if (op != "a" && op != "t") { c.fail("bad edit op"); return; }
+    if (arg == "z") { if (op == "a") cur->append(HandlerPtr()); else so->appendSink(SinkPtr()); return; }   // a null handler is ignored
+    if (arg == "(" || arg == "(-" || arg == "(+") {
+        PipelinePtr q = arg == "(" ? PipelinePtr(SimplePipelinePtr::create(false)) : PipelinePtr::create(arg == "(+");
+        c.keep.push_back(q);
+        if (op == "a") cur->append(HandlerPtr(q)); else so->appendPipeline(q);
+        return;
+    }
+    if (arg == "(!") { if (op == "a" && sp) sp->pipeline(); else c.fail("(! needs SimplePipeline::pipeline()"); return; }
+    const QStringList p = arg.split(':');
+    if (op == "a") { add_leaf(c, cur, sp, p, p.value(1).toInt() % 2 == 0); return; }
+    // typed call
+    if (p.size() < 2) { c.fail("bad leaf"); return; }
+    const int id = p[1].toInt();
+    HandlerPtr h;
+    if (c.objects.count(id)) h = c.objects[id];
+    else { Spec s; if (!spec_of(p, s)) { c.fail("bad leaf"); return; } h = object_of(s); }
+    if (auto a = h.dynamicCast<AttrHandler>()) so->appendAttrHandler(a);
+    else if (auto f = h.dynamicCast<Filter>()) so->appendFilter(f);
+    else if (auto m = h.dynamicCast<Formatter>()) so->setFormatter(m);
+    else if (auto k = h.dynamicCast<Sink>()) so->appendSink(k);
+    else { c.fail("no typed call for a plain Handler"); return; }
+    c.objects[id] = h;
+}
+
 int main()
 {
     std::string line;
@@ -81,95 +267,49 @@ int main()
         auto bar2 = line.find('|', bar + 1);
         std::istringstream ts(line.substr(0, bar));
         std::istringstream ms(bar2 == std::string::npos ? line.substr(bar + 1) : line.substr(bar + 1, bar2 - bar - 1));
-        std::map<int, HandlerPtr> objects;      // oid -> the one object of that identity
-        std::vector<HandlerPtr> keep;
+        Ctx c;
         auto root = SimplePipelinePtr::create(false);
         std::vector<Frame> stack{ Frame{ root.data(), root.data(), false } };
-        std::string tok; bool bad = false, err = false;
+        std::string tok;
         while (ts >> tok) {
             const QStringList p = QString::fromStdString(tok).split(':');
             const QString k = p[0];
             Pipeline *cur = stack.back().p; SimplePipeline *sp = stack.back().sp;
             if (k == "(" || k == "(-" || k == "(+") {
-                if (k == "(") { auto c = SimplePipelinePtr::create(false); keep.push_back(c); cur->append(HandlerPtr(c)); stack.push_back(Frame{ c.data(), c.data(), false }); }
-                else { auto c = PipelinePtr::create(k == "(+"); keep.push_back(c); if (stack.size() % 2) cur->append(HandlerPtr(c)); else *cur << c; stack.push_back(Frame{ c.data(), nullptr, false }); }
+                if (k == "(") { auto ch = SimplePipelinePtr::create(false); c.keep.push_back(ch); cur->append(HandlerPtr(ch)); stack.push_back(Frame{ ch.data(), ch.data(), false }); }
+                else { auto ch = PipelinePtr::create(k == "(+"); c.keep.push_back(ch); if (stack.size() % 2) cur->append(HandlerPtr(ch)); else *cur << ch; stack.push_back(Frame{ ch.data(), nullptr, false }); }
                 continue;
             }
             if (k == "(!") {
-                if (sp) { SimplePipeline &c = sp->pipeline(); stack.push_back(Frame{ &c, &c, true }); }
-                else { err = true; }   // a plain Pipeline has no pipeline(): the generator never asks for it
+                if (sp) { SimplePipeline &ch = sp->pipeline(); stack.push_back(Frame{ &ch, &ch, true }); }
+                else { c.fail("(! under a plain Pipeline"); }   // a plain Pipeline has no pipeline(): the generator never asks for it
                 continue;
             }
             if (k == ")") {
-                if (stack.size() < 2) { bad = true; continue; }
+                if (stack.size() < 2) { c.bad = true; continue; }
                 Frame f = stack.back(); stack.pop_back();
-                if (f.fluent_child && &f.sp->end() != stack.back().sp) bad = true;   // end() must return the parent
+                if (f.fluent_child && &f.sp->end() != stack.back().sp) c.bad = true;   // end() must return the parent
                 continue;
             }
             if (k == "z") { cur->append(std::initializer_list<HandlerPtr>{ HandlerPtr() }); continue; }
-            if (p.size() < 2) { bad = true; continue; }
-            const int id = p[1].toInt();
-            if (objects.count(id)) { cur->append(objects[id]); continue; }     // the same object at another place
-            HandlerPtr h;
-            bool fluent = sp != nullptr && (id % 3 != 0);   // two thirds through the fluent API where it exists
-            if (k == "as" || k == "ac" || k == "am") {
-                std::function<QVariantHash(const LogMessage &)> f;
-                if (k == "as") { QString kk = unhex(p[2]), v = unhex(p[3]); f = [id, kk, v](const LogMessage &) { logx(id, true); return QVariantHash{ { kk, v } }; }; }
-                else if (k == "am") { QVariantHash hsh;   // several pairs; later pairs of the list win
-                    for (const QString &kv : p.value(2).split(',', Qt::SkipEmptyParts)) { auto q = kv.split('.'); hsh.insert(unhex(q[0]), unhex(q.value(1))); }
-                    f = [id, hsh](const LogMessage &) { logx(id, true); return hsh; }; }
-                else { QString kk = unhex(p[2]); f = [id, kk](const LogMessage &m) { logx(id, true); return QVariantHash{ { kk, m.formattedMessage() } }; }; }
-                if (fluent) sp->attrHandler(f); else h = FunctionAttrHandlerPtr::create(f);
-            } else if (k == "ft" || k == "ff" || k == "fc" || k == "fh" || k == "fy") {
-                std::function<bool(const LogMessage &)> f;
-                if (k == "ft") f = [id](const LogMessage &) { logx(id, true); return true; };
-                else if (k == "ff") f = [id](const LogMessage &) { logx(id, false); return false; };
-                else if (k == "fc") { QString s = unhex(p[2]); f = [id, s](const LogMessage &m) { bool r = m.formattedMessage().contains(s); logx(id, r); return r; }; }
-                else if (k == "fh") { QString s = unhex(p[2]); f = [id, s](const LogMessage &m) { bool r = m.hasAttribute(s); logx(id, r); return r; }; }
-                else { int t = p[2].toInt(); f = [id, t](const LogMessage &m) { bool r = int(m.type()) == t; logx(id, r); return r; }; }
-                if (fluent) sp->filter(f); else h = FunctionFilterPtr::create(f);
-            } else if (k == "mt" || k == "ma" || k == "mn" || k == "me") {
-                std::function<QString(const LogMessage &)> f;
-                if (k == "mt") { QString tag = unhex(p[2]); f = [id, tag](const LogMessage &m) { logx(id, true); return tag + ":" + m.formattedMessage(); }; }
-                else if (k == "ma") { QString tag = unhex(p[2]), kk = unhex(p[3]);
-                    f = [id, tag, kk](const LogMessage &m) { logx(id, true);
-                        QString v = m.hasAttribute(kk) ? (m.attribute(kk).userType() == QMetaType::QString ? m.attribute(kk).toString() : QString("#")) : QString("-");
-                        return tag + "[" + v + "]"; }; }
-                else if (k == "mn") f = [id](const LogMessage &) { logx(id, true); return QString(); };
-                else f = [id](const LogMessage &) { logx(id, true); return QString(""); };
-                if (fluent) sp->format(f); else h = FunctionFormatterPtr::create(f);
-            } else if (k == "s") {
-                h = QSharedPointer<RecSink>::create(id);
-            } else if (k == "p" || k == "gs" || k == "gr" || k == "gf" || k == "gc") {
-                std::function<bool(LogMessage &)> f;
-                if (k == "p") f = [id](LogMessage &m) { sep(); out << "d" << id << ".p." << content(m); return true; };
-                else if (k == "gs") { QString kk = unhex(p[2]), v = unhex(p[3]); bool r = p[4] == "1"; f = [id, kk, v, r](LogMessage &m) { logx(id, r); m.setAttribute(kk, v); return r; }; }
-                else if (k == "gr") { QString kk = unhex(p[2]); bool r = p[3] == "1"; f = [id, kk, r](LogMessage &m) { logx(id, r); m.removeAttribute(kk); return r; }; }
-                else if (k == "gf") { QString tag = unhex(p[2]); bool r = p[3] == "1"; f = [id, tag, r](LogMessage &m) { logx(id, r); m.setFormattedMessage(tag + m.formattedMessage()); return r; }; }
-                else { bool r = p[2] == "1"; f = [id, r](LogMessage &m) { logx(id, r); m.setFormattedMessage(QString()); return r; }; }
-                if (fluent) sp->handler(f); else h = FunctionHandlerPtr::create(f);
-            } else if (k == "q") h = QSharedPointer<LoggedSeq>::create(id, unhex(p[2]));
-            else if (k == "d") h = QSharedPointer<LoggedDup>::create(id);
-            else if (k == "l") h = QSharedPointer<LoggedLevel>::create(id, QtMsgType(p[2].toInt()));
-            else { bad = true; continue; }
-            if (h) cur->append(h); else h = static_cast<const Pipeline *>(cur)->handlers().last();
-            objects[id] = h;
+            add_leaf(c, cur, sp, p, false);
         }
-        if (stack.size() != 1) bad = true;
+        if (stack.size() != 1) c.bad = true;
         std::string m; bool firstm = true; std::string res;
-        while (ms >> m) {
+        while (!c.err && ms >> m) {
+            if (m[0] == '@') { apply_edit(c, root.data(), QString::fromStdString(m)); continue; }
             const QStringList p = QString::fromStdString(m).split(':');
-            if (p.size() != 4) { bad = true; break; }
+            if (p.size() != 4) { c.bad = true; break; }
             LogMessage lm(QtMsgType(p[0].toInt()), ctx, unhex(p[1]));
             if (p[2] != "n") lm.setFormattedMessage(unhex(p[2].mid(1)));
-            for (const QString &kv : p[3].split(',', Qt::SkipEmptyParts)) { auto q = kv.split('.'); lm.setAttribute(unhex(q[0]), unhex(q.value(1))); }
+            for (const QString &kv : p[3].split(',', Qt::SkipEmptyParts)) { auto q = kv.split('.'); lm.setAttribute(unhex(q[0]), tval(q.value(1))); }
             out.str(""); first_ev = true;
             bool r = root->process(lm);
-            if (!r) bad = true;       // the root is a Pipeline as well: it must return true
+            if (!r) c.bad = true;       // the root is a Pipeline as well: it must return true
             sep(); out << "e." << content(lm);
             res += (firstm ? "" : "|") + out.str(); firstm = false;
         }
-        if (err) { std::cout << "!ERR (! under a plain Pipeline\n"; continue; }
-        std::cout << (bad ? "!BAD " : "") << res << "\n";
+        if (c.err) { std::cout << "!ERR " << c.why << "\n"; continue; }
+        std::cout << (c.bad ? "!BAD " : "") << res << "\n";
     }
 }
